@@ -17,6 +17,7 @@ package main
 import (
 	"fmt"
 	"math"
+	"sort"
 
 	"github.com/openGemini/openGemini/engine"
 	"github.com/openGemini/openGemini/engine/comm"
@@ -700,4 +701,246 @@ func runMemCase(r *gen.Rand) (mc MemCase) {
 		mc.Stats = append(mc.Stats, ms)
 	}
 	return mc
+}
+
+// ---- combination of partial results: immutable.AggregateData (minMeta / maxMeta / firstMeta / lastMeta / countMeta /
+// sumMeta) - the real code behind the model's `combine` ----
+
+// AggCase: two containers (rows of one column, ascending distinct times each; the two may share times), their partial
+// results as the readers leave them in RecMeta, and what AggregateData made of them
+type AggCase struct {
+	F   int     `json:"f"`
+	A   []SRow  `json:"a"` // V has one entry
+	B   []SRow  `json:"b"`
+	Got MemStat `json:"got"`
+	OK  bool    `json:"ok"`
+	Why string  `json:"why,omitempty"`
+	Tie string  `json:"tie,omitempty"` // values right, a min/max time is not the earliest row carrying the value
+}
+
+// string codes of the combination cases are RANKS in lexicographic order (the engine breaks equal-time ties of first /
+// last by comparing the strings; the model compares codes)
+var rankedPool = func() []string {
+	p := append([]string{}, tsdrv.StrPool...)
+	sort.Strings(p)
+	return p
+}()
+
+func ifaceOf(f int, code int64) interface{} {
+	switch f {
+	case 0:
+		return code
+	case 1:
+		return tsdrv.FloatOf(code)
+	case 2:
+		return code != 0
+	}
+	return rankedPool[int(code)%len(rankedPool)]
+}
+
+func rankCode(f int, v interface{}) (int64, bool) {
+	if s, ok := v.(string); ok && f == 3 {
+		for k, p := range rankedPool {
+			if p == s {
+				return int64(k), true
+			}
+		}
+		return math.MinInt64, true
+	}
+	return codeOfIface(f, v)
+}
+
+func genContainer(g *genState, f int) []SRow {
+	var rows []SRow
+	if g.r.Chance(1, 8) {
+		return nil
+	}
+	t := g.r.Range(0, 3)
+	for n := g.r.Range(1, 4); n > 0; n-- {
+		row := SRow{T: t, V: make([]*int64, 1)}
+		if g.r.Chance(4, 5) {
+			v := g.value(f)
+			row.V[0] = &v
+		}
+		rows = append(rows, row)
+		t += g.r.Range(1, 2)
+	}
+	return rows
+}
+
+// partialRecord: a record carrying the statistics of rows the way the readers leave them (nothing set for a column
+// without values)
+func partialRecord(f int, rows []SRow) *record.Record {
+	schema := record.Schemas{fullSchema[f], fullSchema[len(fullSchema)-1]}
+	rec := record.NewRecordBuilder(schema)
+	rec.RecMeta = &record.RecMeta{}
+	rec.ColMeta = make([]record.ColMeta, 1)
+	var all []vt
+	for _, r := range rows {
+		if r.V[0] != nil {
+			all = append(all, vt{*r.V[0], r.T})
+		}
+	}
+	setColumnDefault(f, rec.Column(0))
+	rec.TimeColumn().AppendInteger(0)
+	if len(all) == 0 {
+		return rec
+	}
+	m := &rec.ColMeta[0]
+	m.SetCount(int64(len(all)))
+	if f <= 1 {
+		s, _, _ := expect("sum", all)
+		m.SetSum(ifaceOf(f, s))
+	}
+	if f <= 2 {
+		v, t, _ := expect("min", all)
+		m.SetMin(ifaceOf(f, v), tsdrv.TimeOf(t))
+		v, t, _ = expect("max", all)
+		m.SetMax(ifaceOf(f, v), tsdrv.TimeOf(t))
+	}
+	v, t, _ := expect("first", all)
+	m.SetFirst(ifaceOf(f, v), tsdrv.TimeOf(t))
+	v, t, _ = expect("last", all)
+	m.SetLast(ifaceOf(f, v), tsdrv.TimeOf(t))
+	return rec
+}
+
+func setColumnDefault(f int, col *record.ColVal) {
+	switch f {
+	case 0:
+		col.AppendInteger(0)
+	case 1:
+		col.AppendFloat(0)
+	case 2:
+		col.AppendBoolean(true)
+	default:
+		col.AppendString("")
+	}
+}
+
+// expectUnion: the function over the rows of both containers; equal times (one in each container): the greater value
+// wins for first / last; equal values: the earlier time for min / max
+func expectUnion(fn string, rows []vt) (int64, int, bool) {
+	if len(rows) == 0 {
+		return 0, -1, true
+	}
+	b := rows[0]
+	for _, r := range rows[1:] {
+		switch fn {
+		case "min":
+			if r.v < b.v || (r.v == b.v && r.t < b.t) {
+				b = r
+			}
+		case "max":
+			if r.v > b.v || (r.v == b.v && r.t < b.t) {
+				b = r
+			}
+		case "first":
+			if r.t < b.t || (r.t == b.t && r.v > b.v) {
+				b = r
+			}
+		case "last":
+			if r.t > b.t || (r.t == b.t && r.v > b.v) {
+				b = r
+			}
+		}
+	}
+	return b.v, b.t, false
+}
+
+func runAggCase(r *gen.Rand) (ac AggCase) {
+	g := &genState{r: r}
+	ac.F = r.Intn(4)
+	ac.A, ac.B = genContainer(g, ac.F), genContainer(g, ac.F)
+	defer func() {
+		if e := recover(); e != nil {
+			ac.OK, ac.Why = false, fmt.Sprint("panic: ", e)
+		}
+	}()
+	var ops []*comm.CallOption
+	for _, fn := range fns {
+		if fnApplies(fn, ac.F) {
+			ops = append(ops, callOf(fn, ac.F))
+		}
+	}
+	newRec, baseRec := partialRecord(ac.F, ac.A), partialRecord(ac.F, ac.B)
+	immutable.AggregateData(newRec, baseRec, ops)
+	m := &newRec.ColMeta[0]
+	ms := MemStat{F: ac.F, MinT: -1, MaxT: -1, FirstT: -1, LastT: -1}
+	if cnt := m.Count(); !immutable.IsInterfaceNil(cnt) {
+		ms.Set = true
+		ms.Count = cnt.(int64)
+	}
+	if s := m.Sum(); !immutable.IsInterfaceNil(s) {
+		ms.HasSum = true
+		ms.Sum, _ = rankCode(ac.F, s)
+	}
+	if v, t := m.Min(); !immutable.IsInterfaceNil(v) {
+		ms.HasMM = true
+		ms.Min, _ = rankCode(ac.F, v)
+		ms.MinT = tsdrv.IdxOf(t)
+		v2, t2 := m.Max()
+		ms.Max, _ = rankCode(ac.F, v2)
+		ms.MaxT = tsdrv.IdxOf(t2)
+	}
+	if v, t := m.First(); !immutable.IsInterfaceNil(v) {
+		ms.First, _ = rankCode(ac.F, v)
+		ms.FirstT = tsdrv.IdxOf(t)
+	}
+	if v, t := m.Last(); !immutable.IsInterfaceNil(v) {
+		ms.Last, _ = rankCode(ac.F, v)
+		ms.LastT = tsdrv.IdxOf(t)
+	}
+	ac.Got = ms
+	// direct oracle: the combined partial result is the function over the rows of both containers
+	var all []vt
+	for _, rows := range [][]SRow{ac.A, ac.B} {
+		for _, row := range rows {
+			if row.V[0] != nil {
+				all = append(all, vt{*row.V[0], row.T})
+			}
+		}
+	}
+	ac.OK = true
+	fail := func(s string) {
+		if ac.OK {
+			ac.OK, ac.Why = false, s
+		}
+	}
+	if len(all) == 0 {
+		if ms.Set && ms.Count != 0 {
+			fail("a count although neither container has a value")
+		}
+		return
+	}
+	if !ms.Set || ms.Count != int64(len(all)) {
+		fail(fmt.Sprintf("count %d (set=%v), rows say %d", ms.Count, ms.Set, len(all)))
+	}
+	if ac.F <= 1 {
+		var s int64
+		for _, x := range all {
+			s += x.v
+		}
+		if !ms.HasSum || ms.Sum != s {
+			fail(fmt.Sprintf("sum %d, rows say %d", ms.Sum, s))
+		}
+	}
+	if ac.F <= 2 {
+		mn, mnT, _ := expectUnion("min", all)
+		mx, mxT, _ := expectUnion("max", all)
+		if !ms.HasMM || ms.Min != mn || ms.Max != mx {
+			fail(fmt.Sprintf("min %d max %d, rows say %d %d", ms.Min, ms.Max, mn, mx))
+		} else if ms.MinT != mnT || ms.MaxT != mxT {
+			ac.Tie = fmt.Sprintf("min time %d max time %d, earliest rows carrying the values: %d %d", ms.MinT, ms.MaxT, mnT, mxT)
+		}
+	}
+	fv, ft, _ := expectUnion("first", all)
+	lv, lt, _ := expectUnion("last", all)
+	if ms.First != fv || ms.FirstT != ft {
+		fail(fmt.Sprintf("first (%d at %d), rows say (%d at %d)", ms.First, ms.FirstT, fv, ft))
+	}
+	if ms.Last != lv || ms.LastT != lt {
+		fail(fmt.Sprintf("last (%d at %d), rows say (%d at %d)", ms.Last, ms.LastT, lv, lt))
+	}
+	return
 }
